@@ -141,7 +141,7 @@ def run(c, facts, tier):
                         keys.add(p.norm(kv[0]))
             for key in keys:
                 # the key must be built from the parameters themselves (copies), not from a function of them that could merge requests
-                stripped = re.sub(r'files\["\{@\d+\}"\]|default_port|"\{@\d+\}"|@\d+|Target::(File|Stdout)|[(),]', "", key)
+                stripped = re.sub(r'files\[(?:"\{@\d+\}"|@\d+)\]|default_port|"\{@\d+\}"|@\d+|Target::(File|Stdout)|[(),]', "", key)
                 inj = stripped.strip() == ""
                 c.ob("C11.key", site, "sharing key is made of the request parameters themselves", inj, "key %s%s" % (key, "" if inj else " — contains a derived value (%s): two different requests may map to one key and share a resource" % stripped.strip()[:60]), witness="-name Makefile -o -name makefile" if not inj else None)
                 missing = [i for i in range(nparams) if "@%d" % i not in key]
@@ -157,10 +157,16 @@ def run(c, facts, tier):
         dk = codegen.mgr_key(facts, M, "definitions")
         dfn = facts.fn(dk)
         t = rx.tail_expr(dfn.body)
-        okd = t is not None and t["k"] == "mcall" and t["m"] == "join" and t["recv"]["k"] == "field" and rx.is_var(t["recv"]["e"], "self") and len(dfn.body["stmts"]) == 1
-        fldname = t["recv"]["name"] if okd else None
+        # which list does definitions() render, and in which order?  By role: the layout ties the list called `vars` to
+        # the Vec<String> that definitions() joins (a Vec keeps insertion order)
+        from .. import mgrstate
+
+        lay = mgrstate.layout(facts, M)
+        vars_paths = [p_ for p_, r_ in lay["alias"].items() if r_ == "vars"]
+        okd = len(vars_paths) == 1 and lay["paths"].get(vars_paths[0]) == "Vec<String>"
+        fldname = "vars" if okd else None
         pushed = {fld for meth in ALLOC for p in mgr.paths(facts, M, meth) for fld, _, _, _ in p.pushes if fld not in ("fini", "init")}
-        c.ob("C11.scope", dk, "definitions are the pushed bindings in creation order", okd and pushed <= {fldname}, "definitions() = self.%s.join(..) (a Vec, insertion ordered); bindings are pushed to %s" % (fldname, sorted(pushed)))
+        c.ob("C11.scope", dk, "definitions are the pushed bindings in creation order", okd and pushed <= {fldname}, "definitions() joins the insertion-ordered Vec %s; bindings are pushed to %s" % (vars_paths, sorted(pushed)))
     # skeleton: definitions inside let*
     sk = emit.skeleton(facts)
     toks = sk["tokens"] if sk and "tokens" in sk else emit.scheme_tokens(sk["text"]) if sk and "text" in sk else []
